@@ -55,61 +55,69 @@ def r1_signature(ctx):
 
 
 def r2_driver(ctx):
+    """the driver on the REAL population stack (Populations methods inlined over c04's stack model): with 0..2 other
+    populations underneath, select() is handed the top population, the picked members are cloned in order into exactly
+    one new population on top, everything underneath and the source stay as they were, and a failing select() leaves
+    the stack untouched"""
+    from c04 import StackModel
     F = ctx.facts
+    POP = "mahf::state::common::Populations"
+    sf = F.field_index(POP, "stack")
     fn = F.fn(SEL + "selection")
     bad = []
     n = 0
-    for size in range(0, 4):
-        for pick in ([()] + [tuple(c) for k in range(1, 4) for c in itertools.product(range(size), repeat=k)][:40]):
+    for below in ((), ("b0",), ("b0", "b1")):
+      for size in range(0, 4):
+        picks = [()] + [tuple(c) for k in range(1, 4) for c in itertools.product(range(size), repeat=k)][:40]
+        if below:
+            picks = picks[:6]
+        for pick in picks:
             for outcome in ("ok", "err"):
-                events = []
-
-                def cur(interp, env, f, args):
-                    events.append(f["name"])
-                    return Vec("cur")
-
-                def bad_access(interp, env, f, args):
-                    events.append(f["name"])
-                    return TOP
-
-                def pushf(interp, env, f, args):
-                    interp.mstate["pushed"] = interp.mstate.get("pushed", ()) + (args[1],)
-                    return Agg("tuple", None, None, [])
-
                 def sel(interp, env, f, args, pick=pick, outcome=outcome):
                     src = load(interp, env, args[1])
-                    interp.mstate["select_from"] = getattr(src, "vid", repr(src))
+                    interp.mstate["select_from"] = (getattr(src, "vid", repr(src)), getattr(src, "lo", None), getattr(src, "hi", None))
                     if outcome == "err":
                         return err(Sym("boom"))
                     from collmodel import new_vec
-                    return ok(new_vec(interp, [HRef("cur", i) for i in pick]))
-                table = {"mahf::state::State::populations_mut": Sym("populations"), "mahf::state::State::populations": Sym("populations"), "mahf::state::State::random_mut": Sym("rng"),
-                         "mahf::state::common::Populations::current": cur, "mahf::state::common::Populations::current_mut": bad_access,
-                         "mahf::state::common::Populations::pop": bad_access, "mahf::state::common::Populations::try_pop": bad_access, "mahf::state::common::Populations::peek": bad_access,
-                         "mahf::state::common::Populations::push": pushf, SELT + "::select": sel}
-                it = install(Interp(fn.body, chain(mk_oracle(table), coll_oracle, std_oracle), [Sym("component"), Sym("problem"), Sym("state")], facts=F, inline=INL, max_visits=10))
+                    if not isinstance(src, Vec):
+                        return TOP
+                    return ok(new_vec(interp, [HRef(src.vid, (src.lo or 0) + i) for i in pick]))
+                popsym = Sym("populations", {sf: Sym("stack")})
+                table = {"mahf::state::State::populations_mut": popsym, "mahf::state::State::populations": popsym, "mahf::state::State::random_mut": Sym("rng"),
+                         SELT + "::select": sel}
+                it = install(Interp(fn.body, chain(mk_oracle(table), StackModel(sf), coll_oracle, std_oracle), [Sym("component"), Sym("problem"), Sym("state")], facts=F,
+                                    inline=lambda k: k.startswith(POP + "::") or INL(k), max_visits=10))
                 src_pop = tuple(c07.ind(i) for i in range(size))
-                it.init_state = {"heap": {"cur": src_pop}, "next_vec": 0}
+                heap = {"cur": src_pop}
+                for j, bname in enumerate(below):
+                    heap[bname] = tuple(c07.ind(10 * (j + 1) + i) for i in range(2))
+                it.init_state = {"stack": tuple(Vec(bname) for bname in below) + (Vec("cur"),), "heap": heap, "next_vec": 0}
                 n += 1
                 for p in it.run():
-                    ctxs = (size, list(pick), outcome)
-                    pushed = p.mstate.get("pushed", ())
-                    if [e for e in events if e not in ("current",)]:
-                        bad.append(ctxs + ("touches the stack through %s (the source must only be read)" % sorted(set(e for e in events if e != "current")),))
+                    ctxs = ("%d with %d other population(s) underneath" % (size, len(below)), list(pick), outcome)
+                    st = list(p.mstate.get("stack", ()))
+                    names = [getattr(x, "vid", repr(x)) for x in st]
+                    if p.mstate.get("unmodelled"):
+                        bad.append(ctxs + ("applies %s to the stack" % (p.mstate["unmodelled"],),))
                         continue
-                    if [c07.otag(x) for x in p.mstate["heap"].get("cur", ())] != [c07.otag(x) for x in src_pop]:
-                        bad.append(ctxs + ("modifies the source population",))
+                    if any([c07.otag(x) for x in p.mstate["heap"].get(k, ())] != [c07.otag(x) for x in v] for k, v in heap.items()):
+                        bad.append(ctxs + ("modifies a population that was on the stack",))
                         continue
                     if outcome == "err":
-                        if p.end != "return" or not (isinstance(p.ret, Agg) and p.ret.variant == "Err") or pushed:
-                            bad.append(ctxs + ("on a selection error: %s %s, pushed %d populations (expected the error and an untouched stack)" % (p.end, p.ret, len(pushed)),))
+                        if p.end != "return" or not (isinstance(p.ret, Agg) and p.ret.variant == "Err") or names != list(below) + ["cur"]:
+                            bad.append(ctxs + ("on a selection error: %s %s, stack %s (expected the error and an untouched stack)" % (p.end, p.ret, names),))
                         continue
-                    if p.end != "return" or not (isinstance(p.ret, Agg) and p.ret.variant == "Ok") or len(pushed) != 1:
-                        bad.append(ctxs + ("%s %s, pushed %d populations (expected Ok and exactly one push)" % (p.end, p.ret, len(pushed)),))
+                    if p.end != "return" or not (isinstance(p.ret, Agg) and p.ret.variant == "Ok"):
+                        bad.append(ctxs + ("%s %s (expected Ok)" % (p.end, p.ret),))
                         continue
-                    if p.mstate.get("select_from") != "cur":
-                        bad.append(ctxs + ("selects from %s, not from the current population" % p.mstate.get("select_from"),))
-                    items = heap_get_path(p, pushed[0])
+                    sfrom = p.mstate.get("select_from")
+                    if not sfrom or sfrom[0] != "cur" or (sfrom[1] or 0) != 0 or (sfrom[2] is not None and sfrom[2] != size):
+                        bad.append(ctxs + ("selects from %s, not from the whole current (top) population" % (sfrom,),))
+                        continue
+                    if len(names) != len(below) + 2 or names[:len(below) + 1] != list(below) + ["cur"]:
+                        bad.append(ctxs + ("leaves the stack as %s (expected the selection pushed once on top of %s)" % (names, list(below) + ["cur"]),))
+                        continue
+                    items = heap_get_path(p, st[-1])
                     got = [c07.otag(x) for x in items]
                     want = ["o:%d" % i for i in pick]
                     intact = all(isinstance(x, Agg) and c07.otag(x) and getattr(x.fields[0], "tag", "") == "s:" + c07.otag(x)[2:] for x in items)
